@@ -86,3 +86,6 @@ M("c12-receive-closed-check-after-wake", "C12", MEM, "MemoryObjectReceiveStream.
 # from seeded changes C12/g, C12/h (round 4)
 M("c12-pending-cancellation-asks-about-the-caller", "C12", A, "AsyncIOTaskInfo.has_pending_cancellation", "        if task_state := _task_states.get(task):", "        if task_state := _task_states.get(current_task()):", ["R12-h"])
 M("c12-effectively-cancelled-honours-only-own-shield", "C12", A, "CancelScope._effectively_cancelled", "            if cancel_scope.shield:", "            if self.shield:", ["R12-j"])
+N("c12-n-pending-cancellation-plain-assignments", "C12", A, "AsyncIOTaskInfo.has_pending_cancellation",
+  "        if task_state := _task_states.get(task):\n            if cancel_scope := task_state.cancel_scope:\n                return cancel_scope._effectively_cancelled",
+  "        task_state = _task_states.get(task)\n        if task_state:\n            cancel_scope = task_state.cancel_scope\n            if cancel_scope:\n                return cancel_scope._effectively_cancelled")
